@@ -10,6 +10,10 @@ def q(s):
 def render_rules(rules):
     out = []
     for r in rules:
+        if "_plain" in r:
+            # a setting that is not a rule (the section may hold other things than rule objects)
+            out.append("    %s %s;" % (q(r["name"]), q(r["_plain"])))
+            continue
         out.append("    %s {" % q(r["name"]))
         for k in ("class", "account", "address", "username", "hostname", "xreply_ok"):
             if r.get(k) is not None:
@@ -97,6 +101,8 @@ def evaluate(rules, client):
     """client: dict(account, addr(128-bit), ident, hostname, ok_services(set, lower-case), cli_username)
     Returns (class or None, trusted_username or None, rule name or None)."""
     for r in sorted_rules(rules):
+        if "_plain" in r:
+            continue
         if r.get("account") is not None:
             acct = client.get("account") or ""
             acct = acct.split(":", 1)[0]
